@@ -2,6 +2,7 @@ package main
 
 import (
 	"fmt"
+	"golang.org/x/tools/go/ssa"
 	"regexp"
 	"strings"
 )
@@ -68,6 +69,15 @@ func runC13(c *Ctx) {
 				Unless: `^ChainReader#0\.GetHeader\(\[\]Header#0\[int#0\]\.Hash\(\), \[\]Header#0\[int#0\]\.Number\.Uint64\(\)\) != nil$`,
 				Re:     `^Aquahash#0\.verifyHeader\(ChainReader#0, \[\]Header#0\[int#0\], .*, false, \[\]bool#0\[int#0\]\) == nil$`},
 		})
+		// header-first import: the batch verifier takes headers[i-1] as the parent of headers[i]; that is sound only
+		// because ValidateHeaderChain first checks both the number and the parent hash link of every adjacent pair
+		vhc := c.Fn("core:(*HeaderChain).ValidateHeaderChain")
+		prev := `\[\]Header#0\[\((` + PH + `|\(phi:rangeindex(~\d+)? \+ 1\)) - 1\)\]`
+		cur := `\[\]Header#0\[(` + PH + `|\(phi:rangeindex(~\d+)? \+ 1\))\]`
+		c.MustLoopBack("C13-R1b", vhc, `^Header\.Hash$`, []LitReq{
+			{Name: "ValidateHeaderChain: adjacent headers are numbered consecutively", Re: `^` + cur + `\.Number\.Uint64\(\) == \(` + prev + `\.Number\.Uint64\(\) \+ 1\)$`},
+			{Name: "ValidateHeaderChain: each header's ParentHash is the hash of its predecessor in the batch", Re: `^` + cur + `\.ParentHash == ` + prev + `\.Hash\(\)$`},
+		})
 	})
 	c.Min("C13-R1b", 3)
 
@@ -105,6 +115,30 @@ func runC13(c *Ctx) {
 			ok := t == "Block#0.Hash()" || (m != nil && m[1] == m[2])
 			c.Ob("C13-R2", "VerifyUncles: set member hashed like the looked-up candidate", c.Position(a.Pos()), ok, "added: "+t)
 		}
+		// sibling: the miner keeps the same "already included" sets while it assembles a block; it must hash their
+		// members exactly as the verifier will (version from the uncle's own number), or it re-includes an uncle
+		if mc := c.FnOpt("opt/miner:(*worker).makeCurrent"); mc == nil {
+			c.Ob("C13-R2", "miner makeCurrent found", "", false, "")
+		} else {
+			nm := 0
+			for _, a := range callSites(mc, `^Set\.Add$`) {
+				t := c.termOf(mc, a.Common().Args[0])
+				if !strings.Contains(t, ".Uncles()") {
+					continue
+				}
+				nm++
+				// SSA identity (rendered terms are depth-elided): X.SetVersion(cfg.GetBlockVersion(X.Number)) for one X
+				okSame := false
+				if sv, ok := stripConvAll(a.Common().Args[0]).(*ssa.Call); ok && strings.HasSuffix(calleeName(&sv.Call), ".SetVersion") && len(sv.Call.Args) == 2 {
+					x := sv.Call.Args[0]
+					if gv, ok := stripConvAll(sv.Call.Args[1]).(*ssa.Call); ok && strings.HasSuffix(calleeName(&gv.Call), ".GetBlockVersion") {
+						okSame = fieldLoadBase(gv.Call.Args[len(gv.Call.Args)-1], "Number") == x
+					}
+				}
+				c.Ob("C13-R2", "miner: uncles of recent ancestors are remembered under the hash the verifier computes (version of the uncle's own height)", c.Position(a.Pos()), okSame, "added: "+t)
+			}
+			c.Ob("C13-R2", "miner records the uncles of recent ancestors", c.FnPos(mc), nm >= 1, fmt.Sprintf("%d", nm))
+		}
 		if len(adds) < 3 {
 			c.Ob("C13-R2", "VerifyUncles: past uncles, block hash and candidates are added to the set", c.FnPos(fn), false, fmt.Sprintf("%d Add sites", len(adds)))
 		}
@@ -118,7 +152,7 @@ func runC13(c *Ctx) {
 			{Name: "ancestor window is 7 generations", Unless: fake, Re: `^(` + PH + ` >= 7|ChainReader#0\.GetBlock\(` + PH + `, ` + PH + `\) == nil)$`},
 		})
 	})
-	c.Min("C13-R2", 16)
+	c.Min("C13-R2", 18)
 
 	c.Rule("C13-R3", "difficulty dispatch: general path clamps to the fork minimum; fork blocks reset to scheduled constants; constants by value", func() {
 		for spec, want := range map[string]string{
@@ -265,8 +299,8 @@ func c13Difficulty(c *Ctx) {
 				continue
 			}
 			n++
-			_, ge := hasLit(rs.State, regexp.MustCompile(`^new\(Int\)(~\d+)?\.Set\(Header#0\.Difficulty\) >= ` + PH + `$`))
-			_, set := hasLit(rs.State, regexp.MustCompile(`^called:new\(Int\)(~\d+)?\.Set\(Header#0\.Difficulty\)\.Set\(` + PH + `\)$`))
+			_, ge := hasLit(rs.State, regexp.MustCompile(`^new\(Int\)(~\d+)?\.Set\(Header#0\.Difficulty\) >= `+PH+`$`))
+			_, set := hasLit(rs.State, regexp.MustCompile(`^called:new\(Int\)(~\d+)?\.Set\(Header#0\.Difficulty\)\.Set\(`+PH+`\)$`))
 			c.Ob("C13-R3", "calcDifficultyHFX general path result is clamped to min", c.Position(rs.Ret.Pos()), ge || set,
 				"path literals: "+strings.Join(rs.State.Lits(), "; "))
 		}
